@@ -640,3 +640,15 @@ mod test {
         assert_eq!(ty!(apply (item 0) (infer 0)), ty);
     }
 }
+
+/// Verification hook: public wrapper over the crate-private anti-unifier
+/// entry point `merge_into_guidance`.
+#[cfg(feature = "verif-hooks")]
+pub fn verif_merge_into_guidance<I: Interner>(
+    interner: I,
+    root_goal: &Canonical<InEnvironment<Goal<I>>>,
+    guidance: Canonical<Substitution<I>>,
+    answer: &Canonical<ConstrainedSubst<I>>,
+) -> Canonical<Substitution<I>> {
+    merge_into_guidance(interner, root_goal, guidance, answer)
+}
